@@ -45,7 +45,8 @@ _timeouts = [0]
 
 def install_guards(seconds=60):
     """Non-termination must become an observation, not a hung check: the outermost from_code / to_code / normalize /
-    to_json_data / from_json_data call of this process runs under a wall-clock guard (signal based; calls made while
+    to_json_data / from_json_data call of this process runs under a CPU-time guard (ITIMER_VIRTUAL: the budget does
+    not shrink when the machine is busy; calls made while
     a guard - the harness' own shorter one included - is already armed are left alone)."""
     import signal
 
@@ -62,16 +63,16 @@ def install_guards(seconds=60):
 
     def wrap(fn):
         def guarded(*a, **kw):
-            if signal.getitimer(signal.ITIMER_REAL)[0] > 0:
+            if signal.getitimer(signal.ITIMER_VIRTUAL)[0] > 0:
                 return fn(*a, **kw)
-            old = signal.signal(signal.SIGALRM, alarm)
+            old = signal.signal(signal.SIGVTALRM, alarm)
             # after three expiries in this process the guard is short: a check must end, whatever the library does
-            signal.setitimer(signal.ITIMER_REAL, seconds if _timeouts[0] < 3 else 5)
+            signal.setitimer(signal.ITIMER_VIRTUAL, seconds if _timeouts[0] < 3 else 5)
             try:
                 return fn(*a, **kw)
             finally:
-                signal.setitimer(signal.ITIMER_REAL, 0)
-                signal.signal(signal.SIGALRM, old)
+                signal.setitimer(signal.ITIMER_VIRTUAL, 0)
+                signal.signal(signal.SIGVTALRM, old)
         guarded.__name__ = getattr(fn, "__name__", "guarded")
         guarded.__doc__ = getattr(fn, "__doc__", None)
         return guarded
